@@ -15,7 +15,9 @@ RULE = ("cases = event sequences on one simulated synchronous bus carrying a Loc
         "setter (own, broadcast, other), raw frames on CAN id 0, raw heartbeats on 0x700+id, slave-local state assignments, "
         "0x1017 writes, heartbeat ticks; all sequences up to length 3 (quick) / 4 (thorough) over the 7 defined command "
         "specifiers plus undefined ones x targets {own, 0, other}; all 256 heartbeat bytes each with its toggled twin; all 256 "
-        "command codes; all state names, near misses and random strings; scripted and real-thread waits. "
+        "command codes; all state names, near misses and random strings; scripted and real-thread waits; heartbeat producer "
+        "on / off / on histories (0x1017 writes of 0 and non-zero values, the same value twice, boot sequences) around every "
+        "triple of commanded states with a tick after every step. "
         "non-trivial = a sequence of >= 2 events with at least one defined command addressed to the node or to all nodes, "
         "a sweep, or a wait with at least one arrival; distinct by canonical JSON of the case")
 EXHAUSTIVE = {"thorough": True}
@@ -627,6 +629,42 @@ def gen_cases(rng, tier):
                                      ["tick"], ["raw", [1, own]], ["tick"], ["raw", [128, oth]], ["tick"]], od=od))
     for t in (-1, 65536):
         cases.append(_seq(own, oth, [["sethb", t], ["tick"]]))
+    # --- heartbeat producer switched on / off / on around state changes: every triple of commanded states
+    #     (state while running, state while off, state after the restart), the commands arriving by every route,
+    #     the producer (re)started by a 0x1017 write (same or another value, also written twice) or by the
+    #     INITIALISING -> PRE-OPERATIONAL transition, a tick after every step that can change what is reported
+    def _route(k, cs, o_, t_):
+        name = [n for n, c_ in R.NAME_CS.items() if c_ == cs][0]
+        return [["cmd", "own", cs], ["cmd", "bc", cs], ["raw", [cs, o_]], ["raw", [cs, 0, 9]], ["scmd", cs],
+                ["name", "own", name], ["sname", name]][k % 7]
+    k = 0
+    for a_, b_, c_ in itertools.product(R.DEFINED_CS, repeat=3):
+        k += 1
+        o_, t_ = ID_PAIRS[k % len(ID_PAIRS)]
+        t1 = (10, 1, 1000, 65535)[k % 4]
+        t2 = t1 if k % 3 else (20, 500)[k % 2]
+        evs = [["sethb", t1], _route(k, a_, o_, t_), ["tick"], ["sethb", 0], ["tick"], _route(k // 7, b_, o_, t_), ["tick"],
+               ["sethb", t2]] + ([["sethb", t2]] if k % 5 == 0 else []) + \
+              [["tick"], _route(k // 49, c_, o_, t_), ["tick"], _route(k + 3, a_, o_, t_), ["tick"]]
+        cases.append(_seq(o_, t_, evs, od=(0, t1)[k % 2], model=(tier != "quick" or k % 3 == 0)))
+    for a_, c_ in itertools.product(R.DEFINED_CS, repeat=2):
+        # producer started by the boot sequence of the slave, switched off, restarted by a second boot sequence
+        k += 1
+        cases.append(_seq(own, oth, [["sname", "INITIALISING"], ["sname", "PRE-OPERATIONAL"], ["tick"], _route(k, a_, own, oth), ["tick"],
+                                     ["sethb", 0], _route(k // 7, c_, own, oth), ["tick"], ["sname", "RESET"], ["tick"],
+                                     ["sethb", 30], ["sname", "PRE-OPERATIONAL"], ["tick"], _route(k + 1, a_, own, oth), ["tick"],
+                                     _route(k + 2, c_, own, oth), ["tick"]], od=(40, 0)[k % 2], model=(tier != "quick" or k % 2 == 0)))
+    for _ in range({"quick": 300, "thorough": 3000, "search": 1500}[tier]):
+        o_, t_ = rng.choice(ID_PAIRS)
+        evs = []
+        for _ in range(rng.randrange(4, 14)):
+            r = rng.random()
+            if r < 0.30: evs.append(["sethb", rng.choice([0, 0, 10, 10, 10, 25, 65535])])
+            elif r < 0.75: evs.append(_route(rng.randrange(7), rng.choice(R.DEFINED_CS), o_, t_))
+            elif r < 0.80: evs.append(["raw", [rng.choice(R.DEFINED_CS), t_]])
+            else: evs.append(["tick"])
+            if rng.random() < 0.5: evs.append(["tick"])
+        cases.append(_seq(o_, t_, evs + [["tick"]], od=rng.choice([0, 10]), loop=rng.random() < 0.8))
     # --- mixed random histories
     for _ in range({"quick": 500, "thorough": 5000, "search": 2500}[tier]):
         o_, t_ = rng.choice(ID_PAIRS)
